@@ -195,6 +195,8 @@ type yaoOpts struct {
 	// randFailAfter > 0: that source fails after so many bytes.
 	randSeed      uint64
 	randFailAfter int
+	// verbose: the parties' verbose flag (and Params.Verbose of the streaming compiler)
+	verbose bool
 	// cc: the garbler's Compiler instance (nil = a fresh one); it must have
 	// been created with the params handed to runStream
 	cc *compiler.Compiler
@@ -257,10 +259,10 @@ func runYao(r *vrt.Rng, c *circuit.Circuit, x, y *big.Int, o yaoOpts) *yaoOut {
 	out.erec = &otx.Recorder{Inner: ei}
 	cfg := &env.Config{Rand: o.entropy(r)}
 	out.g, out.e = runPair(d, func() (err error) {
-		out.gRes, err = circuit.Garbler(cfg, d.connA, out.rec, c, x, false)
+		out.gRes, err = circuit.Garbler(cfg, d.connA, out.rec, c, x, o.verbose)
 		return
 	}, func() (err error) {
-		out.eRes, err = circuit.Evaluator(d.connB, out.erec, c, y, false)
+		out.eRes, err = circuit.Evaluator(d.connB, out.erec, c, y, o.verbose)
 		return
 	})
 	if d.link != nil {
@@ -302,6 +304,9 @@ func runStream(r *vrt.Rng, src string, params *utils.Params, gIn, eIn []string, 
 		params = utils.NewParams()
 	}
 	params.Config = &env.Config{Rand: o.entropy(r)}
+	if o.verbose {
+		params.Verbose = true
+	}
 	out.g, out.e = runPair(d, func() (err error) {
 		sizes, err := circuit.InputSizes(gIn)
 		if err != nil {
@@ -332,7 +337,7 @@ func runStream(r *vrt.Rng, src string, params *utils.Params, gIn, eIn []string, 
 		if err = d.connB.Flush(); err != nil {
 			return err
 		}
-		out.eIO, out.eRes, err = circuit.StreamEvaluator(d.connB, ei, eIn, nil, false)
+		out.eIO, out.eRes, err = circuit.StreamEvaluator(d.connB, ei, eIn, nil, o.verbose)
 		return err
 	})
 	if d.link != nil {
